@@ -1,9 +1,148 @@
 import Lean.Data.Json
+import PydjinniModel.Sys.Config
 /-! Driver handlers for property C17: `handle op request` answers one JSON request. -/
 namespace Pydjinni.Drv.C17
-open Lean
+open Lean Pydjinni.Sys
 
-def handle (op : String) (_req : Json) : Except String Json :=
-  throw s!"unknown op {op}"
+/-- JSON value → model tree: objects are dicts, everything else is a leaf -/
+partial def treeOfJson : Json → Tree
+  | .obj kvs => .node (kvs.toList.map (fun (k, v) => (k, treeOfJson v)))
+  | .str s => .leaf (.str s)
+  | .bool b => .leaf (.bool b)
+  | .null => .leaf .null
+  | .num n => if n.exponent == 0 then .leaf (.int n.mantissa) else .leaf (.other (Json.num n).compress)
+  | .arr xs =>
+    let strs := xs.toList.filterMap (fun | .str s => some s | _ => none)
+    if strs.length == xs.size then .leaf (.strs strs) else .leaf (.other (Json.arr xs).compress)
+
+def kidsOfJson (j : Json) : Except String Kids :=
+  match treeOfJson j with
+  | .node ks => pure ks
+  | _ => throw "expected an object"
+
+def valJ : Val → Json
+  | .str s => Json.str s
+  | .bool b => Json.bool b
+  | .int n => Json.num (JsonNumber.fromInt n)
+  | .null => Json.null
+  | .strs xs => Json.arr (xs.map Json.str).toArray
+  | .other r => match Json.parse r with | .ok j => j | .error _ => Json.str r
+
+mutual
+partial def treeJ : Tree → Json
+  | .leaf v => valJ v
+  | .node ks => kidsJ ks
+partial def kidsJ (ks : Kids) : Json := Json.mkObj (ks.map (fun (k, t) => (k, treeJ t)))
+end
+
+def outcomeJ {α} (f : α → Json) : Outcome α → Json
+  | .ok a => Json.mkObj [("kind", "ok"), ("value", f a)]
+  | .app c => Json.mkObj [("kind", "app"), ("code", c)]
+  | .crash s => Json.mkObj [("kind", "crash"), ("site", s)]
+
+def suffixOf : String → Suffix
+  | "yaml" => .yaml | "yml" => .yml | "json" => .json | "toml" => .toml | _ => .unknown
+
+def fileOf (j : Json) : Except String FileState := do
+  let st ← j.getObjValAs? String "state"
+  match st with
+  | "absent" => pure .absent
+  | "missing" => pure .missing
+  | "directory" => pure .directory
+  | "present" =>
+    let sfx := suffixOf (← j.getObjValAs? String "suffix")
+    let c ← j.getObjValAs? String "content"
+    match c with
+    | "syntaxError" => pure (.present sfx .syntaxError)
+    | "undecodable" => pure (.present sfx .undecodable)
+    | "nonMapping" => pure (.present sfx .nonMapping)
+    | "nonStringTopKey" => pure (.present sfx .nonStringTopKey)
+    | "mapping" => do
+      let d ← j.getObjVal? "doc" >>= kidsOfJson
+      pure (.present sfx (.mapping d))
+    | _ => throw s!"unknown content {c}"
+  | _ => throw s!"unknown file state {st}"
+
+def kindOf : String → Except String DeclKind
+  | "enum" => pure .enum | "flags" => pure .flags | "record" => pure .record | "interface" => pure .interface
+  | "function" => pure .function | "error" => pure .errorDomain | k => throw s!"unknown declaration kind {k}"
+
+def optKids (req : Json) (name : String) : Except String Kids :=
+  match req.getObjVal? name with
+  | .ok j => kidsOfJson j
+  | .error _ => pure []
+
+/-- environment variables as `[[name, decoded value], …]` -/
+def varsOf (req : Json) (name : String) : Except String (List (String × Val)) :=
+  match req.getObjVal? name with
+  | .ok (.arr a) => pure (a.toList.filterMap (fun
+      | .arr #[.str n, v] => (match treeOfJson v with | .leaf x => some (n, x) | .node _ => none)
+      | _ => none))
+  | _ => pure []
+
+def handle (op : String) (req : Json) : Except String Json :=
+  match op with
+  | "c17.merge" => do
+    let o ← req.getObjVal? "o" >>= kidsOfJson
+    let b ← req.getObjVal? "b" >>= kidsOfJson
+    pure (Json.mkObj [("m", kidsJ (combine o b))])
+  | "c17.options" => do
+    let opts ← req.getObjValAs? (List String) "opts"
+    match foldOptions opts [] with
+    | .ok m => pure (Json.mkObj [("kind", "ok"), ("value", kidsJ m)])
+    | .error _ => pure (Json.mkObj [("kind", "app"), ("code", (141 : Nat))])
+  | "c17.env" => do
+    let vs ← varsOf req "vars"
+    pure (Json.mkObj [("tree", kidsJ (envTree vs))])
+  | "c17.configure" => do
+    -- the outcome up to validation (validate := accept): `value` is the tree handed to pydantic together with what the
+    -- environment adds, `explicit` the merge of the options into the file alone. Options are either a dict or a list of
+    -- `-o` texts; environment / .env are lists of [name, value].
+    let file ← req.getObjVal? "file" >>= fileOf
+    let options : Except OptErr Kids ← (match req.getObjVal? "cli_opts" with
+      | .ok j => do
+        let l ← (fromJson? j : Except String (List String))
+        pure (foldOptions l [])
+      | .error _ => do
+        let k ← optKids req "options"
+        pure (.ok k))
+    let env := envTree (← varsOf req "env")
+    let dotenv := envTree (← varsOf req "dotenv")
+    match options with
+    | .error _ => pure (Json.mkObj [("kind", "app"), ("code", (141 : Nat)), ("stage", "options")])
+    | .ok opts =>
+      let eff := configure (fun _ => true) env dotenv file opts
+      let expl := configure (fun _ => true) [] [] file opts
+      let j := outcomeJ kidsJ eff
+      pure (j.mergeObj (Json.mkObj [("explicit", match expl with | .ok t => kidsJ t | _ => Json.null), ("dom", cfgDom file)]))
+  | "c17.ready" => do
+    let gs : GenSet ← (match req.getObjVal? "set" with
+      | .ok .null => pure none
+      | .ok j => do let l ← (fromJson? j : Except String (List String)); pure (some l)
+      | .error _ => pure none)
+    let kinds ← (← req.getObjValAs? (List String) "kinds").mapM kindOf
+    let targets ← req.getObjValAs? (List String) "targets"
+    match parseReady gs with
+    | .ok cts =>
+      pure (Json.mkObj [("parse", Json.mkObj [("kind", "ok"), ("configured", Json.arr (cts.map (fun t => Json.str t.key)).toArray)]),
+        ("generate", Json.arr (targets.map (fun t => outcomeJ (fun _ => Json.null) (generateOutcome cts kinds t))).toArray),
+        ("dom", Json.arr (targets.map (fun t => Json.bool (readyDom cts kinds t))).toArray)])
+    | o => pure (Json.mkObj [("parse", outcomeJ (fun _ => Json.null) o)])
+  | "c17.spec" => do
+    -- specification on the implementation's observation: merged tree handed to validation
+    let o ← req.getObjVal? "o" >>= kidsOfJson
+    let b ← req.getObjVal? "b" >>= kidsOfJson
+    let m ← req.getObjVal? "m" >>= kidsOfJson
+    pure (Json.mkObj [("holds", mergeSpec o b m), ("wf", wf (.node m))])
+  | "c17.spec.option" => do
+    -- one more `-o` on top of what the earlier ones gave: the named key holds the value, everything unrelated is kept
+    let prev ← req.getObjVal? "prev" >>= kidsOfJson
+    let opt ← req.getObjValAs? String "opt"
+    match parseOption opt with
+    | .error _ => pure (Json.mkObj [("parsed", false)])
+    | .ok (p, v) =>
+      let m ← req.getObjVal? "m" >>= kidsOfJson
+      pure (Json.mkObj [("parsed", true), ("holds", mergeSpec (nestKids p v) prev m), ("path", Json.arr (p.map Json.str).toArray)])
+  | _ => throw s!"unknown op {op}"
 
 end Pydjinni.Drv.C17
